@@ -571,3 +571,41 @@ func VerifC16WrongTypeOption() {
 	vassert(rerr != nil, "an option of the wrong type designated to a node is an error")
 	vassert(len(rec) == 0, "and reaches no node")
 }
+
+// a pass-through node takes no options and has nothing below it: designating a component option to it, or to a path
+// below it, is an error of the call; an undesignated option simply does not reach it
+func VerifC16PassthroughTarget() {
+	ctx := context.Background()
+	vcfg("fifo", 1)
+	var rec []c16Recv
+	g := NewGraph[map[string]any, map[string]any]()
+	_ = g.AddPassthroughNode("p")
+	_ = g.AddLambdaNode("l", InvokableLambdaWithOption(func(ctx context.Context, in map[string]any, opts ...c16OptA) (map[string]any, error) {
+		for _, o := range opts {
+			rec = append(rec, c16Recv{"l", o.id, o.val})
+		}
+		return in, nil
+	}))
+	_ = g.AddEdge(START, "p")
+	_ = g.AddEdge("p", "l")
+	_ = g.AddEdge("l", END)
+	r, err := g.Compile(ctx)
+	vassert(err == nil, "graph compiles")
+	kind := vchoose("kind", 3)
+	var opt Option
+	switch kind {
+	case 0:
+		opt = WithLambdaOption(c16OptA{1, 1}).DesignateNodeWithPath(NewNodePath("p", "q"))
+	case 1:
+		opt = WithLambdaOption(c16OptA{1, 1}).DesignateNode("p")
+	case 2:
+		opt = WithLambdaOption(c16OptA{1, 1}) // undesignated: reaches l only
+	}
+	_, rerr := r.Invoke(ctx, map[string]any{"in": 1}, opt)
+	if kind == 2 {
+		vassert(rerr == nil && len(rec) == 1 && rec[0].node == "l", "an undesignated option reaches the typed node and is not an error because of the pass-through")
+		return
+	}
+	vassert(rerr != nil, "an option designated to a pass-through node or to a path below it is an error")
+	vassert(len(rec) == 0, "and reaches no node")
+}
